@@ -413,7 +413,7 @@ Section Lift.
   Theorem hstep_Inv_wb : forall s o, hinv_wb s -> (sp_mutation o = true -> sp_chars_ok (c_querySet c) = true) ->
     hinv_wb (fst (hstep idna_raw c s o)).
   Proof using HH3 Hc Hnf Hsub.
-    intros s o H Hsp. destruct o as [slot w v|slot ref|ref|from|slot n v|slot n|slot n v|slot|slot|slot n|slot|slot];
+    intros s o H Hsp. destruct o as [slot w v|slot ref|ref|from|slot n v|slot n|slot n v|slot|slot|slot n|slot|slot|slot md];
       cbn [hstep sp_mutation] in *.
     - destruct (get s slot) as [u|] eqn:E; [|exact H].
       destruct (setter idna_raw c w u v) as [u'|] eqn:ES; cbn [fst].
@@ -449,6 +449,7 @@ Section Lift.
       + apply hinv_wb_put; [exact H|]. intros u2 E2. injection E2 as <-. exact Hv.
       + intros u2 E2. injection E2 as <-.
         apply sp_update_Inv_wb; [apply Hsp; reflexivity|apply ensure_sp_Inv_wb; apply (H slot u E)].
+    - apply with_sp_Inv_wb; [exact H|apply Hsp; reflexivity].
   Qed.
 End Lift.
 Print Assumptions setter_Inv_wb.
